@@ -216,7 +216,7 @@ Lemma to_entry_S : forall f c busy n,
         let '(i, ei) := rpc_io f c busy KInput s_input input in
         let '(o, eo) := rpc_io f c busy KOutput s_output output in
         let r := match i, o with
-                 | None, None => if action then None else Some (None, None)
+                 | None, None => Some (None, None)
                  | _, _ => Some (i, o)
                  end in
         (Entry name KDir TSUnset TSUnset [] [] None [] None None (Some []) r, ei || eo)
